@@ -128,7 +128,9 @@ theorem collectWatches_ok {H : Heap} {L : Limits} (ws : List WatchIn) (c : Cache
     split
     · split
       · exact h
-      · exact ih _ _ happ
+      · split
+        · exact ih _ _ h
+        · exact ih _ _ happ
     · split
       · exact ih _ _ h
       · split
